@@ -16,7 +16,8 @@ LEVEL = "exploration"
 SHARDS = {"quick": 4, "thorough": 16}
 TIME_CAP = {"quick": 50, "thorough": 600}
 RULE = (
-    "Full matrix: error-status in {1..18, 19, 255, -1, 2^31-1} x error-index 0..len+3 x "
+    "Full matrix: error-status in {1..18, 19, 255, -1, 2^31-1} x error-index 0..len+3 (plus "
+    "-1, 2^31-1 and values beyond Integer32: 2^31, 2^32, 2^63-1, 2^63, 2^64, 10^30, -2^63-1) x "
     "binding lists of 0..5 (tooBig: empty list) x operations {get, multiget, getnext, "
     "multigetnext, set, multiset, bulkget, walk/multiwalk/bulkwalk/table/bulktable with the "
     "error on the first or on a later request, PyWrapper get/multiget/walk} x seven levels "
@@ -204,6 +205,10 @@ def matrix():
                         yield (op, status, index, nvb, 0, nreq)
             yield (op, 5, -1, None, 0, nreq)
             yield (op, 5, 2**31 - 1, None, 0, nreq)
+            # beyond Integer32 (BER carries any INTEGER): machine-word boundaries and more
+            for status, nvb in ((5, None), (1, 0), (19, None)):
+                for index in (2**31, 2**32 - 1, 2**32, 2**63 - 1, 2**63, 2**64, 10**30, -(2**31) - 1, -(2**63), -(2**63) - 1):
+                    yield (op, status, index, nvb, 0, nreq)
     for op in WALK_OPS:
         for when in (0, 2):
             for status in STATUSES:
